@@ -1,11 +1,11 @@
 SPECIFICATION Spec
 CONSTANTS
-  Threads = {t1, t2, t3}
-  MaxPush = 3
-  MaxPop = 3
-  MaxUnblock = 1
-  MaxSize = 1
-  Void = FALSE
+  Threads = {t1}
+  MaxPush = 5
+  MaxPop = 5
+  MaxUnblock = 3
+  MaxSize = 0
+  Void = TRUE
   AllowDestroy = TRUE
 INVARIANTS TypeOK NeverBothNonEmpty ExactlyOnceDelivery DeliveredInOrder ItemsSorted WaitersFIFO NoLostWaiter DestroyCancels
 PROPERTY AllResolved
